@@ -126,7 +126,7 @@ def run(ctx):
             scripts += ctx.generate("Gen_ZoneTxn", gen_cfg(
                 ctx, "g3.cfg", maxops=3, ops=tset(["add", "replace", "delname", "deltype", "delrds"]), names=tset(["a"]),
                 types=tset(["A", "CNAME", "NSEC"]), rdids=tset([1, 2]), ttls=tset([300, 600]),
-                serialargs="GenSerialSmall", inits="{ZC}",
+                serialargs="GenSerialSmall", inits="GenInitC",
                 spellings=tset(["abs"]), addforms=tset(["rdataset"]), delforms=tset(["rdata"]), kinds=tset(["write"]),
                 repl="{FALSE}", ends=tset(["raise"])))
         # G4: long random behaviours over the full universe
